@@ -51,10 +51,10 @@ type PMCase struct {
 	// Canonical is false when a union element sits in a member YANG would not choose for its
 	// value (an enum in a union that has a string member): such a message shares its flattening
 	// with another message and the round trip is not decidable for it.
-	Canonical *bool `json:"canonical,omitempty"`
-	Em       []string `json:"em,omitempty"`
-	Emstr    string   `json:"emstr,omitempty"`
-	Child    []string `json:"child,omitempty"`
+	Canonical *bool    `json:"canonical,omitempty"`
+	Em        []string `json:"em,omitempty"`
+	Emstr     string   `json:"emstr,omitempty"`
+	Child     []string `json:"child,omitempty"`
 
 	Paths []string `json:"paths"`
 }
